@@ -219,7 +219,11 @@ func (p *pathCtx) queryMode(extra *smt.Term, forceSMT bool) (smt.Result, map[str
 		if sat, wit, ok := p.fd.feasible(extra); ok {
 			st := &p.i.stats
 			p.i.fdTick++
-			if p.i.cfg.CrossCheckFD > 0 && p.i.fdTick%p.i.cfg.CrossCheckFD == 0 {
+			every := p.i.cfg.CrossCheckFD
+			if st.FDCrossChecked > 200 {
+				every *= 25 // a sample is enough: each cross-check re-asserts the whole path condition
+			}
+			if every > 0 && p.i.fdTick%every == 0 {
 				r, m := p.smtQuery(extra)
 				st.FDCrossChecked++
 				if (r == smt.Sat) != sat && r != smt.Unknown {
